@@ -300,7 +300,7 @@ def _run_case_inner(ctx, case):
                     s_.add(j)
             t = t2
             if case.get('post_edit') and m >= 2 and min(len(s_) for s_ in signed) >= m and 'post_edit' not in flags:
-                _post_edit(ctx, case, wj, j, t, m, spk, amount, flags)
+                _post_edit(ctx, case, wj, j, t, m, spk, amount, flags, wallets, signed)
             _judge(ctx, case, t, signed, m, spk, amount, 'handoff %d (%s by %d)' % (step, medium, j), flags, kf=kf)
             if step >= 1 and m < n:
                 flags.add('multi_handoff')
@@ -320,7 +320,7 @@ def _foreign():
     return raddr.addr_p2pkh(bytes(range(0x80, 0x94)), NET)
 
 
-def _post_edit(ctx, case, wj, j, t, m, spk, amount, flags):
+def _post_edit(ctx, case, wj, j, t, m, spk, amount, flags, wallets=None, signed=None):
     """The completely signed (and verified) spend is changed afterwards by ONE cosigner - the amount paid is lowered,
     i.e. the fee raised - and signed again by that cosigner only, then sent without anybody asking verify() in
     between. The other cosigners' signatures belong to the old version: the changed spend has one valid signer, it
@@ -358,6 +358,37 @@ def _post_edit(ctx, case, wj, j, t, m, spk, amount, flags):
         pushed = False
     if ref_ok:
         ctx.klass('post_edit.still_valid')
+        return
+    if not (flagged or pushed) and case.get('post_resign') and wallets and signed and mode != 'sign':
+        # the changed spend goes round again: the other cosigners that had signed the old version replace their
+        # signatures (dict hand-off, sign(replace_signatures=True)). Once m distinct cosigners have signed the NEW
+        # version it is a correctly signed spend and has to verify
+        done = {j}
+        cur = tb
+        others = [x for x in sorted(set.intersection(*signed)) if x != j]
+        for x in others:
+            if len(done) >= m:
+                break
+            try:
+                cur = wallets[x].transaction_import(cur.as_dict())
+                cur.sign(replace_signatures=True)
+            except Exception as e:
+                ctx.refusal('post_resign.%s' % type(e).__name__)
+                return
+            done.add(x)
+        if len(done) >= m:
+            flags.add('post_resign')
+            try:
+                ok2 = bool(cur.verify())
+                tx2 = wire.Tx.parse(cur.raw())
+                ref2 = all(interp.verify_input(tx2, k_, spk, amount[k_])[0] for k_ in range(len(amount)))
+            except Exception as e:
+                ok2, ref2 = False, False
+            if not ok2 or not ref2:
+                ctx.disc('post_resign.%s' % ('not_verified' if not ok2 else 'invalid'),
+                         'the changed spend was signed again by %d distinct cosigners %r (m=%d, each replacing its old '
+                         'signature) but verify() is %r and the consensus interpreter says %s' %
+                         (len(done), sorted(done), m, ok2, 'valid' if ref2 else 'invalid'), case)
         return
     if flagged or pushed:
         ctx.disc('post_edit.%s:%s' % ('pushed' if pushed else 'verified_flag', mode),
@@ -465,6 +496,7 @@ def _strategy(ctx):
                 'two_inputs': draw(st.sampled_from([False, False, True])),
                 'resign_nonces': draw(st.sampled_from([False, False, True])),
                 'post_edit': draw(st.sampled_from([None, 'sign_replace', 'sign_and_update', 'sign'])),
+                'post_resign': draw(st.booleans()),
                 'bulk': draw(st.sampled_from([0, 0, 2, 3])), 'bulk_change': draw(st.sampled_from([0, 0, 1])), 'creator': draw(st.integers(0, n - 1)), 'handoffs': handoffs,
                 'rng': draw(st.integers(0, 2 ** 31))}
     return cases()
